@@ -204,6 +204,14 @@ class Abstract(object):
         return self.__class__.__name__
 
 
+class SymGen(object):
+    """A generator expression `elt for x in it` over an abstract sequence of SYMBOLIC length (no filter): the bounds
+    [lo, hi) of the index, the element getter and the element expression, to be consumed by min()/max()."""
+
+    def __init__(self, lo, hi, getter, target, elt, frame):
+        self.lo, self.hi, self.getter, self.target, self.elt, self.frame = lo, hi, getter, target, elt, frame
+
+
 class Opt(object):
     """Either None or a value: (isnone: z3 Bool, val)."""
 
